@@ -1009,8 +1009,13 @@ def _oracle_space(res, c, rng, margins):
             margins[kind + "_jump"] = max(margins.get(kind + "_jump", 0.0), w)
             res.count("edges_tested_" + kind, n)
             if w > 1e-11:
-                cex(f"{kind.lower()}-{mode}-jump-{tag}", f"jump {w:.3e}·||c|| of the {mode} component of a {kind[:-1]} "
-                    "function across an interior barycentric edge", **(wit or {}))
+                interface = any(len(l) >= 2 and len({bool(sup0[e]) for e, _ in l}) == 2 for l in gi.edge_elems.values())
+                k_ = ("bc-truncated-segment-nonconforming" if (interface and trunc)
+                      else f"{kind.lower()}-{mode}-jump-{tag}")
+                cex(k_, f"jump {w:.3e}·||c|| of the {mode} component of a {kind[:-1]} function across an interior "
+                    "barycentric edge whose two sub-triangles are both in the support"
+                    + (" (support with an interior segment interface, truncate_at_segment_edge=True)"
+                       if (interface and trunc) else ""), **(wit or {}))
 
 
 def _table_hypotheses(res, gi):
